@@ -6,10 +6,34 @@ NOTE = ('Trusted: Coq 8.16.1 kernel + vm_compute (no native_compute); no axioms 
         'gen/translate.py and CPython import of /repo; Base/PyLite.v; extraction via ExtrOcamlBasic only + ocaml/driver.ml; '
         'hand-written model parts are tied to /repo by differential correspondence (sampled, not proved); frozen ISO tables Ref/IsoData.v.')
 CHECKS = {
- 'C11': dict(text='Kernel-checked finite theorem: the module classifier translated from the current utils.get_bit equals an ISO-derived classifier at every position of all 44 sizes for every admissible module value, except exactly the listed known finding (8,size-9); quiet-zone lemma for unbounded borders. Exhaustive correspondence of matrix_iter_verbose on real symbols of all 44 sizes against the extracted classifier.',
-             ref='DESIGN.md section 6 C11', technique='Coq proof (vm_compute sweep over translated source + lifting lemma) + exhaustive correspondence'),
+ 'C01': dict(text='Theorems (unbounded content): bit packing of all five modes is inverted by the reference decoder readers; segment headers, terminator and ISO padding parse back to exactly the encoded segments (QR and Micro, with ECI / Structured Append headers); codeword conversion, block split and interleaving are inverted by de-interleaving; placement + masking are inverted by the ISO zig-zag reading for all 44 versions (per-version facts by kernel computation); end-to-end composition in Lemmas/RoundTrip.v. Tie: frozen tables = current source tables (re-checked), hand model vs implementation by differential correspondence; every implementation symbol of the run is decoded by the extracted reference decoder and compared with the content bytes under the documented codec policy.',
+             ref='DESIGN.md 6 C01', technique='Coq proof (induction over content, finite per-version kernel checks) + extracted reference decoder on implementation symbols + model/implementation correspondence'),
+ 'C02': dict(text='Theorem encode_core_c02: for ARBITRARY data, every model symbol is a square of the ISO size whose function patterns equal the ISO geometry (Annex E by formula), both format copies are BCH(15,5)(level, mask) xor constant, both version copies Golay(18,6)(v) (generic last-write-wins lemmas + kernel computation over 44 versions / 1312 triples). Tables FORMAT_INFO / VERSION_INFO / ALIGNMENT_POS proved equal to BCH / Golay / Annex-E formula. Exhaustive correspondence over all 1312 (version, level, mask) triples with the extracted oracle on implementation matrices and QRCode metadata.',
+             ref='DESIGN.md 6 C02', technique='Coq proof + kernel computation over all versions; exhaustive correspondence on 1312 triples'),
+ 'C03': dict(text='GF(256) derived from the tables (alpha = 2, 0x11D; field laws proved), 18 generator polynomials have roots alpha^0..alpha^(ec-1); the in-place synthetic division of the model equals the LFSR remainder and yields zero syndromes for data of ANY length; interleave/de-interleave round trip for any block list; Table 9 facts (168 layouts); read_blocks_of_final_message: the decoder recovers blocks that are valid RS codewords with the Table 9 shapes; minimum distance >= ec+1 and unique decoding within floor(ec/2) errors. Extracted syndrome/layout oracle on implementation symbols of all 168 layouts.',
+             ref='DESIGN.md 6 C03', technique='Coq proof (algebra + induction) + extracted syndrome oracle on implementation symbols'),
+ 'C04': dict(text='find_version_spec: the model version search equals first-fit over the admissible order with ISO capacities and the bit-length formula (incl. ECI, Hanzi subset, SA header) for arbitrary segment lists; overflow iff nothing admissible fits; Micro/QR admissibility. Both sides of every capacity boundary are run on the implementation and judged by the extracted first-fit specification; payload completeness by the reference decoder.',
+             ref='DESIGN.md 6 C04', technique='Coq proof + boundary-directed correspondence with extracted spec oracle'),
+ 'C05': dict(text='boost_spec: boosted level = highest fitting level of the version, never lower than the request, never H in Micro / Q below M4; boosting cannot change the version (encode_boost_keeps_version); capacity strictly decreases with the level for all versions (kernel computation). Threshold-directed correspondence with the extracted boost specification.',
+             ref='DESIGN.md 6 C05', technique='Coq proof + threshold-directed correspondence'),
+ 'C06': dict(text='Mask predicates translated from the current source equal ISO Table 10 on all positions (kernel sweep) and for unbounded i, j in the model; model scorer = independent ISO 7.8.3 scorer N1..N4 for matrices of any size (n3: all overlapping occurrences); find_and_apply_best_mask_is_iso: first minimum (QR) / first maximum (Micro) of the ISO scores. Oracle: all candidates recomputed from the implementation matrix and scored with the extracted ISO scorer; adversarial matrices for the scorer.',
+             ref='DESIGN.md 6 C06', technique='Coq proof + translated-source bridge + extracted ISO scorer on implementation output'),
+ 'C07': dict(text='find_mode_is_spec for byte strings of any length; requested mode honoured iff representable, refusal is always ValueError; exhaustive find_mode correspondence on all 65 792 one- and two-byte inputs; modes read back from implementation symbols by the reference decoder.',
+             ref='DESIGN.md 6 C07', technique='Coq proof + exhaustive small-scope correspondence'),
+ 'C08': dict(text='Chunk partition, header positions/total/parity (= XOR of the message bytes in the encoding used), symbol counts 1..16, never Micro, symbol_count=k gives k symbols, version=v gives version v, for all inputs; fit of every chunk proved EXCEPT the known finding D14 (refuted with a kernel-evaluated witness, partial theorem for non-overflowing chunkings). Every implementation symbol is decoded and the sequence reassembled by the harness.',
+             ref='DESIGN.md 6 C08', technique='Coq proof (+ refutation witness for the known finding) + decoding of implementation sequences'),
+ 'C11': dict(text='Kernel-checked finite theorem: the module classifier translated from the current utils.get_bit equals an ISO-derived classifier at every position of all 44 sizes for every admissible module value, except exactly the listed known finding (8,size-9); quiet-zone lemma for unbounded borders; iter_rows / iter_verbose_rows = pixel grid for unbounded scale/border. Exhaustive correspondence of matrix_iter_verbose on real symbols of all 44 sizes against the extracted classifier.',
+             ref='DESIGN.md 6 C11', technique='Coq proof (vm_compute sweep over translated source + lifting lemma) + exhaustive correspondence'),
+ 'C12': dict(text='Routing logic (extension/kind resolution, svgz, sequence file names, CLI keyword filter) modelled over tables dumped from the current source; all routes of every kind compared byte-for-byte on the implementation (path, upper-case extension, stream+kind, data URIs, svg_inline, svgz, CLI, terminal, sequences). PARTIAL: file/stream I/O and argparse are not modelled.',
+             ref='DESIGN.md 6 C12', technique='Coq tables/model for routing + exhaustive route comparison on the implementation'),
+ 'C13': dict(text='pad_model_is_iso_kf: for every version, capacity and segment stream of ANY length the model padding equals ISO 7.4.9/7.4.10 padding except exactly the known finding D1 (characterised: one extra 00000000 codeword; proved to differ whenever the predicate holds). Oracle: data codewords recovered from implementation matrices vs iso_pad for every residue mod 8 and distance to capacity.',
+             ref='DESIGN.md 6 C13', technique='Coq proof with exact known-finding characterisation + extracted padding oracle'),
+ 'C14': dict(text='encode_args_exn_class: over raw None/bool/int/str arguments the model returns a symbol or ValueError/DataOverflow/UnicodeErr/LookupErr - IndexErr, KeyErr, TypeErr, AssertErr unreachable; documented exclusions always refused; spelling independence of versions/levels/modes/masks. Correspondence of exception classes on the argument product incl. malformed values; serializer argument refusals; CLI exit status. PARTIAL: CLI process behaviour only observed.',
+             ref='DESIGN.md 6 C14', technique='Coq proof over the argument domain + exception-class correspondence'),
+ 'C15': dict(text='encode_idempotent_eq: re-encoding with the reported version/level/mask and boosting disabled returns the same record (with the necessary mode hypothesis and its counterexample); version independent of mask and boosting. The model is a function, so determinism/history independence hold of it; refinement by the implementation under random histories, reordering and 8 threads is sampled. PARTIAL: thread interleavings cannot be exhibited by the model.',
+             ref='DESIGN.md 6 C15', technique='Coq proof (idempotence) + history/thread correspondence'),
 }
-NA = {}
+NA = {'C09': 'check being integrated (models/readers/theorems for PBM, PAM, PPM, PNG, XBM, XPM, TXT, terminal exist in theories/; harness pending)', 'C10': 'check being integrated (SVG/EPS/PDF/TeX models in progress)', 'C16': 'check being integrated (helpers model and theorems exist; harness pending)'}
 def main():
     props = [json.loads(l)['id'] for l in open(os.path.join(HERE, 'properties.jsonl'))]
     checks = []
